@@ -142,10 +142,11 @@ func judge(sc Scenario, refs []Ref, rr RunResult) ([]finding, []aligned) {
 		if g.Execve && hasEmpty(g.Args) && len(r.Args) == 0 {
 			continue // known limitation of go-libaudit: an empty argument makes it drop the EXECVE record's data
 		}
-		if r.Session != expectedSession(g) || (r.Result == "success") != g.Success ||
+		// (the result is not cross-checked here: a disagreement on it is what render:outcome reports)
+		if r.Session != expectedSession(g) ||
 			!r.Time.Equal(time.Unix(g.Sec, int64(g.Msec)*1e6)) || (g.Execve && !eqStrs(r.Args, g.Args)) || (!g.Execve && len(r.Args) > 0) {
-			add("", "group %d: generator (ses %q success %v args %q) and library (ses %q result %q args %q) disagree: %q",
-				i, expectedSession(g), g.Success, g.Args, r.Session, r.Result, r.Args, g.Lines)
+			add("", "group %d: generator (ses %q args %q) and library (ses %q args %q) disagree: %q",
+				i, expectedSession(g), g.Args, r.Session, r.Args, g.Lines)
 		}
 	}
 	for _, e := range rr.Errors {
